@@ -245,3 +245,69 @@ def call_with_default(system, use_default, f, *args, **kw):
         return f(*args, **kw)
     finally:
         prev.set_as_default()
+
+
+# ------------------------------------------------------------------------------------------------
+# events registered with a Sequence (they carry the library id, and shape_IDs for shape-based events)
+def register_events(seq, evs):
+    """`ev.id = seq.register_*_event(ev)` for every event kind that has a library; returns the ids"""
+    ids = []
+    for ev in evs:
+        t = getattr(ev, 'type', None)
+        if t == 'trap':
+            ev.id = seq.register_grad_event(ev)
+        elif t == 'grad':
+            ev.id, ev.shape_IDs = seq.register_grad_event(ev)
+        elif t == 'rf':
+            ev.id, ev.shape_IDs = seq.register_rf_event(ev)
+        elif t == 'adc':
+            ev.id = seq.register_adc_event(ev)
+        else:
+            continue
+        ids.append((t, ev.id))
+    return ids
+
+
+def stale_id(inputs, outputs):
+    """an output that is not one of the input objects but carries a library id: (index, id) or None.
+    (The outputs are new events; an id taken over from an input makes add_block store the INPUT event.)"""
+    for j, o in enumerate(outputs):
+        if any(o is i for i in inputs):
+            continue
+        if hasattr(o, 'id'):
+            return j, getattr(o, 'id')
+    return None
+
+
+def stored_differs(seq, block_index, outs, raster, amp_scale):
+    """compare what the Sequence stored for block `block_index` (decoded with get_block) with the events that were
+    handed to add_block: gradient waveforms per channel (rendered), RF/ADC timing.  None or a detail dict."""
+    b = seq.get_block(block_index)
+    tol_amp = Fraction(amp_scale) * Fraction(3, 10 ** 7) + Fraction(1, 10 ** 6)
+    for ch in CHN:
+        want = [o for o in outs if getattr(o, 'type', None) in ('grad', 'trap') and o.channel == ch]
+        got = getattr(b, 'g' + ch, None)
+        if not want:
+            if got is not None:
+                return {'channel': ch, 'what': 'stored block has a gradient, no event was given'}
+            continue
+        if got is None:
+            return {'channel': ch, 'what': 'stored block has no gradient'}
+        p0, p1 = corners(want[0], raster), corners(got, raster)
+        ts = set()
+        for pts in (p0, p1):
+            for (t0, _), (t1, _) in zip(pts, pts[1:]):
+                ts.add((t0 + t1) / 2)
+                ts.add(t0 + (t1 - t0) / 3)
+        for t in sorted(ts):
+            a, c = pw_eval(p0, t), pw_eval(p1, t)
+            if abs(a - c) > tol_amp:
+                return {'channel': ch, 't': float(t), 'event_given': float(a), 'stored_block': float(c)}
+    for kind in ('rf', 'adc'):
+        want = [o for o in outs if getattr(o, 'type', None) == kind]
+        got = getattr(b, kind, None)
+        if want and got is None:
+            return {'what': 'stored block has no ' + kind}
+        if want and abs(F(got.delay) - F(want[0].delay)) > Fraction(1, 10 ** 12):
+            return {'what': kind + ' delay', 'event_given': float(want[0].delay), 'stored_block': float(got.delay)}
+    return None
